@@ -18,6 +18,7 @@ import GenjaxModel.Model.ViElboIO
 import GenjaxModel.Model.AdevProgIO
 import GenjaxModel.Model.AdevDet2IO
 import GenjaxModel.Model.SeedCacheIO
+import GenjaxModel.Model.VmapRuleIO
 /-! Line-protocol driver: one S-expression per input line, one per output line. -/
 open Genjax
 
@@ -83,6 +84,9 @@ def dispatch (e : SExp) : SExp :=
   | some r => r
   | none =>
   match stepSeedCache e with
+  | some r => r
+  | none =>
+  match stepVmapRule e with
   | some r => r
   | none => .list [.atom "bad-op"]
 
